@@ -147,7 +147,7 @@ entries only repeat numbers, so the theorems quantify over every call list that 
 open Sqfs.Numbering in
 def topNum : NTree → List Nat
   | .file n => [n]
-  | .hlink => []
+  | .hlink _ => []
   | .dir n _ => [n]
 
 open Sqfs.Numbering in
@@ -155,7 +155,7 @@ mutual
 /-- numbers added as directory entries below the node `t` (not `t`'s own entry in its parent) -/
 def entriesT : NTree → List Nat
   | .file _ => []
-  | .hlink => []
+  | .hlink _ => []
   | .dir _ cs => entriesL cs
 /-- the entries for the nodes of a child list, and everything below them -/
 def entriesL : List NTree → List Nat
